@@ -505,7 +505,7 @@ def _isnan(lib, run, recv, args, kw):
 def _square(lib, run, recv, args, kw):
     v = args[0]
     if isinstance(v, Num):
-        return Num(real(v) * real(v))
+        return Num(T.rmul(real(v), real(v)))
     raise Unsupported('np.square')
 
 
@@ -674,8 +674,8 @@ _M = z3.Const('M', Mat)
 _j = z3.Int('j')
 mrow = F('mrow', Mat, Int, RSeq)
 axiom('mrow.len', forall([_M, _i], T.rlen(mrow(_M, _i)) == mcols(_M), [mrow(_M, _i)]), ['mrow'], 'numpy')
-axiom('mrow.at', forall([_M, _i, _j], T.rat(mrow(_M, _i), _j) == mat_at(_M, _i, _j), [T.rat(mrow(_M, _i), _j)]),
-      ['mrow'], 'numpy')
+axiom('mrow.at', forall([_M, _i, _j], T.rat(mrow(_M, _i), _j) == mat_at(_M, _i, _j),
+                        [T.rat(mrow(_M, _i), _j), mat_at(_M, _i, _j)]), ['mrow', 'mat_at'], 'numpy')
 
 
 def _size(v):
@@ -847,6 +847,9 @@ def _asarray(lib, run, recv, args, kw):
             return SeqV(o.skind, o.term)
         if isinstance(o, ListO) and len(o.items) == 1 and isinstance(o.items[0], SeqV) and o.items[0].kind == 'R':
             return MatV(row1(o.items[0].term))
+        if isinstance(o, SymListO) and o.ekind == 'rseq':
+            from .liblinalg import mat_of_rows
+            return mat_of_rows(lib, run, o)
         if isinstance(o, ListO) and o.items and all(isinstance(x, ArmV) for x in o.items):
             t = T.aempty
             for x in o.items:
